@@ -170,6 +170,7 @@ type Stats struct {
 	MaxDevs      int
 	NondetErrors []string
 	Pruned       int64
+	Hung         bool
 }
 
 // Found is a violation with its replay vector.
@@ -393,6 +394,13 @@ func (s *Scenario) Explore() *Stats {
 			if nd > st.MaxDevs {
 				st.MaxDevs = nd
 			}
+			if r.Obs == "HANG" && !stopped {
+				// abandoned spinning goroutines compromise the process: end this search now
+				stopped = true
+				st.Exhaustive = false
+				st.CapsHit = append(st.CapsHit, "stopped-after-hang")
+				st.Hung = true
+			}
 			st.Outcomes[r.Obs]++
 			if r.Nontrivial {
 				c := r.Class
@@ -453,6 +461,11 @@ func (s *Scenario) Explore() *Stats {
 				return
 			}
 		}
+	}
+	if st.Hung {
+		// abandoned executions are still burning CPU: no re-runs, report at once
+		sort.SliceStable(st.Violations, func(i, j int) bool { return len(st.Violations[i].Vector) < len(st.Violations[j].Vector) })
+		return st
 	}
 	if first != nil {
 		recheck(first, firstObs, 1)
